@@ -359,6 +359,76 @@ def s6_small_dispatch(src_text, stats):
             + "            _ => panic!(\"verif: command outside the modelled alphabet\"),\n        }\n    }\n}\n")
 
 
+
+def brace_block_end(text, i):
+    """index of the `}` matching the `{` at text[i] (strings, chars and line comments skipped)"""
+    depth, k, in_str = 0, i, False
+    while k < len(text):
+        ch = text[k]
+        if in_str:
+            if ch == "\\":
+                k += 1
+            elif ch == '"':
+                in_str = False
+        else:
+            if ch == '"':
+                in_str = True
+            elif ch == "'" and re.match(r"'(\\.|[^\\'])'", text[k:k + 4]):
+                k += len(re.match(r"'(\\.|[^\\'])'", text[k:k + 4]).group(0)) - 1
+            elif text.startswith("//", k):
+                k = text.index("\n", k)
+                continue
+            elif ch == "{":
+                depth += 1
+            elif ch == "}":
+                depth -= 1
+                if depth == 0:
+                    return k
+        k += 1
+    return -1
+
+
+def s7_parser_arms(src_text, which, stats):
+    """S7: every arm of the command-name `match cmd_name.as_str() { ... }` of a RESP command parser becomes a
+    function of its own (arm text copied verbatim): `Command::verif_arm_<which>_<NAME>(elements, cmd_name)`.
+    The parsers are single 1500-line functions; symbolic execution through the whole name match did not finish
+    for a one-argument GET, whereas one arm is seconds. That a name selects its arm is decided separately by the
+    c16_name_* harnesses, which run the unmodified parser."""
+    key = "match cmd_name.as_str() {"
+    if src_text.count(key) != 1:
+        die("S7: `%s` not found exactly once (%s)" % (key, which))
+    i = src_text.index(key) + len(key) - 1
+    k = brace_block_end(src_text, i)
+    if k < 0:
+        die("S7: unbalanced name match (%s)" % which)
+    arms = split_match_arms(src_text[i + 1:k])
+    if len(arms) < 50:
+        die("S7: fewer parser arms than expected (%d)" % len(arms))
+    elem = {"sim": "RespValue", "prod": "RespValueZeroCopy"}[which]
+    out = ["\n// ---- S7: generated by /verif/stage/stage.py (one function per arm of the command-name match; arm text copied) ----\n",
+           "impl Command {\n"]
+    names = []
+    for pat, expr in arms:
+        lits = re.findall(r'"([A-Za-z0-9_.]+)"', pat)
+        if pat.strip() == "_":
+            nm = "UNKNOWN_"
+        elif lits and re.fullmatch(r'\s*"[A-Za-z0-9_.]+"(\s*\|\s*"[A-Za-z0-9_.]+")*\s*', pat):
+            nm = re.sub(r"[^A-Za-z0-9_]", "_", lits[0])
+        else:
+            die("S7: unexpected arm pattern %r (%s)" % (pat, which))
+        names.append(nm)
+        out.append("    #[allow(dead_code, unused_variables, unreachable_code, non_snake_case, clippy::all)]\n"
+                   "    pub fn verif_arm_%s_%s(elements: &Vec<%s>, cmd_name: String) -> Result<Command, String> {\n        %s\n    }\n"
+                   % (which, nm, elem, expr if expr.lstrip().startswith("{") else "{ " + expr + " }"))
+    out.append("}\n#[allow(non_snake_case, dead_code)]\npub mod verif_arms_%s {\n    use super::*;\n" % which)
+    for nm in names:
+        out.append("    pub fn %s(elements: &Vec<%s>, cmd_name: String) -> Result<Command, String> { Command::verif_arm_%s_%s(elements, cmd_name) }\n"
+                   % (nm, elem, which, nm))
+    out.append("}\n")
+    stats["s7"] = stats.get("s7", 0) + len(names)
+    return "".join(out)
+
+
 def write_if_changed(path, data):
     if os.path.exists(path):
         with open(path, "rb") as f:
@@ -394,8 +464,14 @@ def main():
                     text += s3_collectors(text, stats)
                 if rel == "src/redis/executor/mod.rs":
                     text += s6_small_dispatch(text, stats)
+                if rel == "src/redis/parser.rs":
+                    text += s7_parser_arms(text, "sim", stats)
+                if rel == "src/redis/commands.rs":
+                    text += s7_parser_arms(text, "prod", stats)
                 if rel == "src/streaming/recovery.rs":
                     text += s5_wal_threshold(text, stats)
+                if rel == "src/redis/mod.rs":
+                    text += "\n// S7: generated re-exports\npub use commands::verif_arms_prod;\npub use parser::verif_arms_sim;\n"
                 if rel == "src/production/mod.rs":
                     text += ("\n// S3: generated re-exports\npub use connection_optimized::{verif_batch_admitted, verif_collect_get_keys, "
                              "verif_collect_set_pairs, verif_fast_get_parse, verif_fast_set_parse};\n")
